@@ -4130,6 +4130,7 @@ class Qube(object):
         else:
             self._values_ &= (arg != 0)
 
+        self._cache_.clear()
         return self
 
     #===========================================================================
@@ -4147,6 +4148,7 @@ class Qube(object):
         else:
             self._values_ |= (arg != 0)
 
+        self._cache_.clear()
         return self
 
     #===========================================================================
@@ -4164,6 +4166,7 @@ class Qube(object):
         else:
             self._values_ ^= (arg != 0)
 
+        self._cache_.clear()
         return self
 
     #===========================================================================
